@@ -561,6 +561,29 @@ func GenTypes(t *rapid.T, o *Opts) *Spec {
 			o.class("feature:named_array_of_unions_held_by_value")
 		}
 	}
+	if o.EmbedUnionHolders && o.Unions == 2 && rapid.IntRange(0, 2).Draw(t, "embedUnionHolder") == 0 {
+		// directed: an embedded struct (untagged, or with an options-only tag: both are flattened) that holds a
+		// union field, inside a struct that has no union field of its own
+		var us []*tinfo
+		for _, ti := range g.types {
+			if ti.cat == "union" && ti.pkg == root && len(g.spec.Unions()[root.Path][ti.d.Name].Members) > 0 {
+				us = append(us, ti)
+			}
+		}
+		if len(us) > 0 {
+			u := us[rapid.IntRange(0, len(us)-1).Draw(t, "euhUnion")]
+			inner := &Decl{Kind: KStruct, Name: g.freshName(root, "euhInner", true), Fields: []*Field{
+				{Name: "Zshape", Type: g.refTo(root, u)}, {Name: "Zcount", Type: Basic("int")}}}
+			ii := g.newDecl(root, root.Files[rapid.IntRange(0, 1).Draw(t, "euhInnerFile")], inner, &tinfo{cat: "struct", hasUnion: true})
+			emb := &Field{Name: inner.Name, Type: g.refTo(root, ii), Embedded: true}
+			if rapid.Bool().Draw(t, "euhOptTag") {
+				emb.Tag = `json:",omitempty"`
+			}
+			outer := &Decl{Kind: KStruct, Name: g.freshName(root, "euhOuter", true), Fields: []*Field{emb, {Name: "Ztitle", Type: Basic("string")}}}
+			g.newDecl(root, root.Files[0], outer, &tinfo{cat: "struct", hasUnion: true})
+			o.class("feature:embedded_struct_holding_a_union")
+		}
+	}
 	if o.RecursiveUnions && rapid.IntRange(0, 2).Draw(t, "recursiveUnion") == 0 {
 		// a recursive union: a struct member holds a value of the union it belongs to (type Add struct{ Left, Right Expr })
 		type pair struct {
